@@ -57,7 +57,7 @@ def run(chk, repo, tier):
     chk.clause('C19-e', 'Gaussian constant exp(-2*pi^2*sigma^2*rho^2); extents enter as (extent/pixelscale)*oversample', 3)
     chk.clause('C19-f', 'jitter/smear rescale so that the total equals the input total', 2)
     chk.clause('C19-h', 'pixelate = pixel blur followed by flux-preserving rescale by 1/oversample', 1)
-    chk.clause('C19-s', 'no blur mixes two different axes of the image (shape inference over detector/convolvable)', 3)
+    chk.clause('C19-s', 'no blur mixes two different axes of the image (shape inference over detector/convolvable)', 1)
     chk.not_decided += ['equality with the exact circular convolution', 'treatment of the unpaired Nyquist sample']
 
     from . import common
